@@ -471,4 +471,6 @@ fn gen_sched(prop: &str, case: &mut Case, w: &mut Rng, k: &mut Rng, knobs: &mut 
         knobs.rowset_size = *k.pick(&[256usize, 1024, 4096, 1 << 20]);
     }
     case.params.insert("avoid".into(), avoid.on as i64);
+    // in part of the runs two parked actors are sometimes released in one step
+    case.params.insert("pair_pct".into(), *w.pick(&[0i64, 0, 15, 30]));
 }
